@@ -21,7 +21,7 @@ import ast
 from .. import nodewalk, paths, tables
 from ..model import AnalysisError, Project, reachable, self_attr, walk_no_nested
 from ..report import Result
-from .common import site, src
+from .common import site, src, guard_rejects
 
 PROP = 'C20'
 LEVEL = 'other'
@@ -287,8 +287,9 @@ def loop_has_variant(fi, loop) -> (bool, str):
         if f'{v}+=1' in body_txt and ('.pop(' in body_txt):
             return True, f'|queue| − {v} decreases (checked path-wise by C04.R3)'
     # (b) len(X) > 0 with X.pop in the body on every iteration
-    if tt.startswith('len(') and (tt.endswith(')>0') or tt.endswith(')!=0')):
-        x = tt[4:tt.rindex(')')]
+    truthy_list = isinstance(t, (ast.Name, ast.Attribute)) and f'{tt}.pop(' in body_txt     # `while X:` with X.pop(...) in the body
+    if truthy_list or (tt.startswith('len(') and (tt.endswith(')>0') or tt.endswith(')!=0'))):
+        x = tt if truthy_list else tt[4:tt.rindex(')')]
         first = loop.body[0] if loop.body else None
         if f'{x}.pop(' in body_txt:
             # the pop must not be conditional: every path through the body that reaches its end (no raise / return / break) executes it
@@ -307,8 +308,8 @@ def loop_has_variant(fi, loop) -> (bool, str):
                 return (bool(stmts) and isinstance(stmts[-1], (ast.Raise, ast.Return, ast.Break))) or every_completing_path(stmts)
             if every_completing_path(loop.body):
                 return True, f'len({x}) decreases on every iteration'
-    # (c) while True: v -= 1; if v < 0: raise; ... break
-    if isinstance(t, ast.Constant) and t.value is True:
+    # (c) while <anything>: v -= 1; if v < 0: raise; ...      (a counter that strictly decreases and is bounded below by a raise)
+    if True:
         decs = [s_ for s_ in loop.body if isinstance(s_, ast.AugAssign) and isinstance(s_.op, ast.Sub) and isinstance(s_.target, ast.Name)]
         for d in decs:
             v = d.target.id
@@ -400,10 +401,17 @@ def check_progress(p, reach, r):
 
 
 # ------------------------------------------------------------------------------------------- R4
+def _call_pred(pred, text, node):
+    try:
+        return pred(text, node)
+    except TypeError:
+        return pred(text)
+
+
 def find_raise_under(fn, pred):
-    """a `raise`/assert whose governing condition satisfies pred(text)"""
+    """a `raise`/assert whose governing condition satisfies pred(text[, test node])"""
     for n in walk_no_nested(fn):
-        if isinstance(n, ast.If) and any(isinstance(x, ast.Raise) for x in n.body) and pred(ast.unparse(n.test).replace(' ', '')):
+        if isinstance(n, ast.If) and any(isinstance(x, ast.Raise) for x in n.body) and _call_pred(pred, ast.unparse(n.test).replace(' ', ''), n.test):
             return n
         if isinstance(n, ast.Assert) and pred('assert:' + ast.unparse(n.test).replace(' ', '')):
             return n
@@ -437,11 +445,13 @@ def check_validations(p, r):
             r.ok('C20.R4', key, what, src(cls_rel), hit.lineno)
         else:
             r.fail('C20.R4', key, f'validation removed: {what} - the invalid configuration is silently simulated', src(cls_rel), fi.node.lineno)
-    need('edges/edge.py', 'Edge', '__init__', 'capacity', lambda t: 'isinstance(self.capacity,int)' in t and 'self.capacity<=0' in t and t.startswith('not'),
+    need('edges/edge.py', 'Edge', '__init__', 'capacity', lambda t, n=None: n is not None and guard_rejects(n, ('capacity', 'self.capacity'), bad=(0, -3, 2.5, None, '4'), good=(1, 7)),
          'capacity must be a positive int')
     need('edges/buffer.py', 'Buffer', '__init__', 'mode', lambda t: 'self.modenotin' in t and 'FIFO' in t and 'LIFO' in t, 'mode must be FIFO or LIFO')
-    need('edges/edge.py', 'Edge', 'get_delay', 'delay>=0', lambda t: t in ('assert:val>=0', 'val<0'), 'drawn delay must be non-negative')
-    need('nodes/node.py', 'Node', 'get_delay', 'delay>=0', lambda t: t in ('assert:val>=0', 'val<0'), 'drawn delay must be non-negative')
+    import re as _re
+    nonneg = lambda t: bool(_re.fullmatch(r'assert:(\w+)>=0|assert:0<=(\w+)|(\w+)<0|0>(\w+)', t))    # noqa: E731
+    need('edges/edge.py', 'Edge', 'get_delay', 'delay>=0', nonneg, 'drawn delay must be non-negative')
+    need('nodes/node.py', 'Node', 'get_delay', 'delay>=0', nonneg, 'drawn delay must be non-negative')
     need('nodes/source.py', 'Source', '__init__', 'nonblocking-zero-interarrival',
          lambda t: 'inter_arrival_time==0' in t and 'notself.blocking' in t and 'or' not in t.replace('inter_arrival_time', ''),
          'a non-blocking source needs a non-zero inter-arrival time')
@@ -766,7 +776,7 @@ def check_none_deref(p, r):
             # statements whose line lies between two consecutive events of the path
         # static scan: deref of self.X.<attr> for X in none_attrs at a statement that is not dominated by an assignment to self.X
         # on some path (zero-trip loops).  Implemented on the AST with a small must-assign analysis.
-        bad = must_assign_scan(fi, none_attrs)
+        bad = must_assign_scan(fi, none_attrs, w.methods)
         if bad:
             attr, line, why = bad
             r.fail('C20.R7', key, f'`self.{attr}.…` is read at line {line} but `self.{attr}` is still None when {why}: AttributeError', src(fi.module), line)
@@ -774,7 +784,7 @@ def check_none_deref(p, r):
             r.ok('C20.R7', key, f'attributes initialised to None ({", ".join(sorted(none_attrs))}) are assigned before every dereference', src(fi.module), fi.node.lineno)
 
 
-def must_assign_scan(fi, none_attrs):
+def must_assign_scan(fi, none_attrs, methods=None):
     """Walk the body of the process loop; `assigned` = attributes definitely assigned a non-None value so far in this iteration.
     A `while`/`for` body contributes nothing (zero-trip); an `if` contributes the intersection of its branches (a raising branch is ignored)."""
     loops = [n for n in fi.node.body if isinstance(n, ast.While)]
@@ -789,10 +799,52 @@ def must_assign_scan(fi, none_attrs):
         return out
 
     def terminates(blk):
-        return bool(blk) and isinstance(blk[-1], (ast.Raise, ast.Return, ast.Continue, ast.Break))
+        """no path through the block reaches its end"""
+        if not blk:
+            return False
+        last = blk[-1]
+        if isinstance(last, (ast.Raise, ast.Return, ast.Continue, ast.Break)):
+            return True
+        if isinstance(last, ast.If) and last.orelse:
+            return terminates(last.body) and terminates(last.orelse)
+        return False
 
-    def walk(stmts, assigned):
+    methods = methods or {}
+
+    def helper_call(s_):
+        """FuncInfo of a private same-class helper that this simple statement runs to completion (plain call or `yield from`)"""
+        v = s_.value if isinstance(s_, (ast.Expr, ast.Assign, ast.AnnAssign, ast.AugAssign)) else None
+        if isinstance(v, ast.YieldFrom):
+            v = v.value
+        if isinstance(v, ast.Call) and isinstance(v.func, ast.Attribute) and isinstance(v.func.value, ast.Name) and v.func.value.id == 'self' \
+                and v.func.attr.startswith('_') and v.func.attr in methods:
+            return methods[v.func.attr]
+        return None
+
+    depth = {'n': 0}
+
+    def walk(stmts, assigned, rets=None):
         for s_ in stmts:
+            if isinstance(s_, ast.Return) and rets is not None:
+                for a, ln in derefs(s_):
+                    if a not in assigned:
+                        return (a, ln, 'this statement runs on a path where no earlier statement of the iteration assigned it')
+                rets.append(set(assigned))
+                return None
+            h = helper_call(s_) if not isinstance(s_, (ast.If, ast.While, ast.For, ast.Try)) else None
+            if h is not None and depth['n'] < 4:
+                depth['n'] += 1
+                inner = set(assigned)
+                rets_h = []
+                res = walk(h.node.body, inner, rets_h)
+                depth['n'] -= 1
+                if res and isinstance(res, tuple):
+                    return res
+                exits = rets_h + ([inner] if not terminates(h.node.body) else [])
+                if exits:
+                    common = set.intersection(*exits)
+                    assigned |= common
+                continue
             if isinstance(s_, ast.If):
                 # test may dereference
                 for a, ln in derefs(s_.test):
@@ -808,10 +860,10 @@ def must_assign_scan(fi, none_attrs):
                         a1.add(a)
                     if t == f'self.{a}isNone':
                         a2.add(a)
-                r1 = walk(s_.body, a1)
+                r1 = walk(s_.body, a1, rets)
                 if r1 and isinstance(r1, tuple):
                     return r1
-                r2 = walk(s_.orelse, a2)
+                r2 = walk(s_.orelse, a2, rets)
                 if r2 and isinstance(r2, tuple):
                     return r2
                 b1 = a1 if not terminates(s_.body) else None
@@ -826,12 +878,12 @@ def must_assign_scan(fi, none_attrs):
                 continue
             if isinstance(s_, (ast.While, ast.For)):
                 inner = set(assigned)
-                res = walk(s_.body, inner)
+                res = walk(s_.body, inner, rets)
                 if res and isinstance(res, tuple):
                     return res
                 continue          # zero-trip: nothing is definitely assigned
             if isinstance(s_, ast.Try):
-                res = walk(s_.body, assigned)
+                res = walk(s_.body, assigned, rets)
                 if res and isinstance(res, tuple):
                     return res
                 continue
